@@ -61,6 +61,10 @@ def child_stubgen(job: dict) -> dict:
     out_dir = job["out"]
     buf_o, buf_e = io.StringIO(), io.StringIO()
     res: dict[str, Any] = {"crash": None, "stubs": {}}
+    # stubgen's helper processes (forkserver, resource tracker) inherit fd 2: keep their chatter out of the log
+    sys.stderr.flush()
+    devnull = os.open(os.devnull, os.O_WRONLY)
+    os.dup2(devnull, 2)
     try:
         with contextlib.redirect_stdout(buf_o), contextlib.redirect_stderr(buf_e):
             opts = sg.parse_options(job["flags"] + ["-q", "-o", out_dir] + job["target"])
@@ -178,6 +182,16 @@ def owner_by_line(stub: str) -> list[str | None]:
         m = _TOP_RE.match(ln)
         if m and not ln.startswith(("import ", "from ")):
             cur = m.group(1) or m.group(2)
+        elif ln.startswith(("import ", "from ")):
+            # an import line belongs to the (first) name it binds: `from m import a as b, c` -> b
+            names = re.findall(r"(?:import|,)\s+([\w.]+)(?:\s+as\s+(\w+))?", ln)
+            cur = next(((al or nm.split(".")[0]) for nm, al in names), None)
+            owners[i] = cur
+            cur = None
+            for j in pending:
+                owners[j] = None
+            pending = []
+            continue
         else:
             cur = None
         owners[i] = cur
@@ -206,15 +220,38 @@ def parse_mypy_errors(errors: list[str]) -> list[tuple[str | None, int, str]]:
     return out
 
 
+_KEEP_QUOTED = {
+    "_abc", "builtin_function_or_method", "method_descriptor", "wrapper_descriptor", "dataclasses._DataclassParams",
+    "async def", "__init__", "__new__", "__all__", "type[...]",
+}
+
+
 def normalise_reason(text: str, module_names: list[str]) -> str:
-    """Cause-level form of a message: generated names lose their numeric suffix, module names vanish."""
+    """Cause-level form of a message: generated identifiers (they all carry a numeric suffix), parameter /
+    member names and module names are abstracted; the wording of the diagnostic is kept."""
     for m in sorted(module_names, key=len, reverse=True):
         text = text.replace(m + ".", "").replace(m, "M")
+    text = re.sub(r"0x[0-9a-f]+", "ADDR", text)
     text = re.sub(r"\bp[a-e]\b", "P", text)
-    text = re.sub(r"\d+", "N", text)
-    text = re.sub(r"0x[0-9a-fN]+", "ADDR", text)
+    text = re.sub(r"\d+", "\x01", text)
+
+    def quoted(m: re.Match) -> str:
+        inner = m.group(1)
+        if inner in _KEEP_QUOTED:
+            return m.group(0)
+        if re.fullmatch(r"typing\.[A-Z]\w*", inner):
+            return '"typing.<type parameter>"'
+        if re.fullmatch(r"[\w.@\x01]+", inner):
+            return '"X"'
+        return m.group(0)
+
+    text = re.sub(r'"([^"\n]{1,80})"', quoted, text)
+    text = re.sub(r"\b[A-Za-z_]\w*\x01\w*(\.\w+)*", "X", text)  # remaining generated identifiers
+    text = re.sub(r"runtime type .*$", "runtime type <T>", text)
+    text = re.sub(r"stub parameter type .*?\. ", "stub parameter type <T>. ", text)
+    text = text.replace("\x01", "N")
     text = re.sub(r"\s+", " ", text).strip()
-    return text[:200]
+    return text[:160]
 
 
 # ----------------------------------------------------------------------------- structural oracle
@@ -332,6 +369,7 @@ class _Scope:
         self.classes: dict[str, list[ast.ClassDef]] = {}
         self.vars: dict[str, list[ast.expr]] = {}
         self.bound: set[str] = set()
+        self.imported: set[str] = set()
 
 
 def _collect(stmts: list[ast.stmt]) -> _Scope:
@@ -355,6 +393,12 @@ def _collect(stmts: list[ast.stmt]) -> _Scope:
                             sc.bound.add(n.id)
             elif isinstance(st, ast.TypeAlias):
                 sc.bound.add(st.name.id)  # type: ignore[attr-defined]
+            elif isinstance(st, ast.Import):
+                for a in st.names:
+                    sc.imported.add(a.asname or a.name.split(".")[0])
+            elif isinstance(st, ast.ImportFrom):
+                for a in st.names:
+                    sc.imported.add(a.asname or a.name)
             elif isinstance(st, ast.If):
                 visit(st.body)
                 visit(st.orelse)
@@ -369,6 +413,7 @@ def _collect(stmts: list[ast.stmt]) -> _Scope:
                 visit(getattr(st, "orelse", []))
 
     visit(stmts)
+    sc.bound |= sc.imported
     return sc
 
 
@@ -409,39 +454,61 @@ def _args(fn: Any) -> list[ast.arg]:
     return out
 
 
+def _short(text: str) -> str:
+    """Every dotted name reduced to its last component (qualification is not what is being compared)."""
+    return re.sub(r"[A-Za-z_][\w]*(?:\.[A-Za-z_]\w*)+", lambda m: m.group(0).rsplit(".", 1)[1], text)
+
+
+def _same(want: str, got: str) -> bool:
+    return want == got or _short(want) == _short(got)
+
+
+def _how(want: str, got: str | None) -> str:
+    """Kind of annotation change (cause-level wording; the exact texts go to the raw record)."""
+    if got is None:
+        return f"annotation dropped [`{want}` -> nothing]"
+    if "[" in want and _short(got) == _short(want.split("[", 1)[0]):
+        return f"annotation lost its type arguments [`{want}` -> `{got}`]"
+    if "Incomplete" in got:
+        return f"annotation replaced by Incomplete [`{want}` -> `{got}`]"
+    return f"annotation changed [`{want}` -> `{got}`]"
+
+
 def _match_func(src: Any, stub: Any, ns: _Norm, nt: _Norm) -> list[str]:
     """Mismatches between one source def and one stub def (only what the source spelled out)."""
     out = []
     stub_args = {a.arg: a for a in _args(stub)}
-    for i, a in enumerate(_args(src)):
+    for a in _args(src):
         if a.annotation is None:
             continue
         sa = stub_args.get(a.arg)
         want = ns.n(a.annotation)
         if sa is None:
-            out.append(f"parameter annotated `{want}` is missing from the stub signature")
+            out.append(f"annotated parameter is missing from the stub signature [`{a.arg}: {want}`]")
         elif sa.annotation is None:
-            out.append(f"parameter annotation `{want}` dropped")
+            out.append(_how(want, None))
         else:
             got = nt.n(sa.annotation)
-            if got != want:
-                out.append(f"parameter annotation `{want}` became `{got}`")
+            if not _same(want, got):
+                out.append(_how(want, got))
     if src.returns is not None:
         want = ns.n(src.returns)
         if stub.returns is None:
-            out.append(f"return annotation `{want}` dropped")
+            out.append(_how(want, None))
         else:
             got = nt.n(stub.returns)
-            if got != want:
-                out.append(f"return annotation `{want}` became `{got}`")
+            if not _same(want, got):
+                out.append(_how(want, got))
     return out
 
 
 def _var_ok(want: str, got: str) -> bool:
-    if want == got:
+    if _same(want, got):
         return True
     if want == "Final" and got.startswith("Final["):
         return True  # stubgen: "Final without type argument is invalid in stubs"
+    if got.startswith("ClassVar[") and got.endswith("]") and not want.startswith("ClassVar"):
+        return _var_ok(want, got[len("ClassVar["):-1])  # class attribute with a value spelled as ClassVar[T]
     return False
 
 
@@ -473,13 +540,15 @@ def _compare(src: _Scope, stub: _Scope, ns: _Norm, nt: _Norm, public, path: str,
             elif name in stub.vars:
                 if getter.returns is not None:
                     want, got = ns.n(getter.returns), nt.n(stub.vars[name][0])
-                    if want != got:
-                        out.append((q, f"property: return annotation `{want}` became attribute annotation `{got}`"))
+                    if not _var_ok(want, got):
+                        out.append((q, f"property rendered as attribute: {_how(want, got)}"))
             else:
                 out.append((q, "property missing from stub"))
             continue
         kind = "function" if top else "method"
         if name not in stub.funcs:
+            if name in stub.imported and name in src.imported:
+                continue  # one branch of the source imports the name; the stub shows that binding
             if name in stub.classes or name in stub.vars or name in stub.bound:
                 out.append((q, f"{kind} is not a def in the stub"))
             else:
@@ -501,6 +570,8 @@ def _compare(src: _Scope, stub: _Scope, ns: _Norm, nt: _Norm, public, path: str,
             continue
         q = path + name
         if name not in stub.classes:
+            if name in stub.imported and name in src.imported:
+                continue
             out.append((q, "class missing from stub" if name not in stub.bound else "class is not a class in the stub"))
             continue
         # conditional redefinitions: compare against the variant that matches best
@@ -520,14 +591,11 @@ def _compare(src: _Scope, stub: _Scope, ns: _Norm, nt: _Norm, public, path: str,
         if name in stub.vars:
             gots = [nt.n(a) for a in stub.vars[name]]
             if not any(_var_ok(w, g) for w in wants for g in gots):
-                out.append((q, f"{kind}: annotation `{wants[0]}` became `{gots[0]}`"))
+                out.append((q, f"{kind}: {_how(wants[0], gots[0])}"))
         elif name in stub.funcs and any(_prop_role(s) for s in stub.funcs[name]):
             pass  # attribute represented as a property
         elif name in stub.bound:
-            if wants[0] in ("TypeAlias",):
-                out.append((q, f"{kind}: annotation `{wants[0]}` dropped"))
-            else:
-                out.append((q, f"annotated {kind} is present without its annotation `{wants[0]}`"))
+            out.append((q, f"{kind}: {_how(wants[0], None)}"))
         else:
             out.append((q, f"annotated {kind} missing from stub"))
 
